@@ -147,6 +147,24 @@ ROUND6 = {
 }
 for _k, _v in ROUND6.items():
     CHECKS[_k]["text"] += _v
+ROUND7 = {
+ "C01": " Round 7: BlockStake is no longer treated as a privileged type (it was an exemption copied from the code, and hid a genuine defect); C01.input-owner - every value-carrying input carries the key the signature was verified against; C01.stake-input-lookup; C01.scan-exemptions admits amount == 0 only (Bound exemption was a genuine defect).",
+ "C02": " Round 7: the inflation gate applies to staking transactions as well; cross-lists C13.window-block-on-disk.",
+ "C03": " Round 7: replacing a stored Block wholesale counts as a write of in_longest_chain (index-owner); C03.ring-positions - ring slots are computed from the ring size, never from genesis_period.",
+ "C04": " Round 7: C04.insert-is-additive - nothing reachable from BlockRing::add_block removes index entries or moves a marker.",
+ "C05": " Round 7: C05.first-block-shortcut - BlockRing.empty is true only in the constructor.",
+ "C06": " Round 7: C06.tx-hash-coverage - the transaction hash covers every input and output (no thinning adaptor) and, for an input, every component of the UTXO key it spends (two known findings: block_id / tx_ordinal are not signed).",
+ "C08": " Round 7: C08.work-misordered - ordinary work amounts only behind parent timestamp < own timestamp; staking transactions are not exempt from the routing-path check.",
+ "C09": " Round 7: C09.dispatch-guards - a length guard in a Message::deserialize arm accepts the shortest encoding the payload's writer produces.",
+ "C10": " Round 7: C10.signature findings are keyed by decoder (no obligation count in the key).",
+ "C11": " Round 7: C11.fetch-quota - every transition to Fetching takes one unit of the per-peer quota in the same iteration.",
+ "C13": " Round 7: cross-lists C03.ring-positions.",
+ "C14": " Round 7: C14.pool-types - the pool's admission point cannot insert Fee / ATR / SPV (Issuance once the chain has a block), decided per type with the branch conditions evaluated for that type (genuine defect repaired); cross-lists C01.utxo-lookup.",
+ "C17": " Round 7: cross-lists the C09 decoder rules for the handshake messages.",
+ "C19": " Round 7: closures act for the body that defines them; cross-lists C03.lockstep (wallet view).",
+}
+for _k, _v in ROUND7.items():
+    CHECKS[_k]["text"] += _v
 PENDING = "check not built yet in this round (planned in DESIGN.md §4); not claimed until it lands"
 
 def main():
